@@ -12,8 +12,9 @@ import (
 	"github.com/hashicorp/serf/serf"
 )
 
-// C36: name-conflict vote.  One op per case:
-//   vote <flavour> <selfaddr> <selfport> <payload>/<class> …
+// C36: name-conflict vote.  A case = the replies, then the vote:
+//   r <payload>/<class>                      one reply (buffered)
+//   vote <flavour> <selfaddr> <selfport>     run the conflict with the buffered replies
 // flavour h4|h16: the harness closes the query (hook running the timer closure's body) once all replies
 // were consumed; t4|t16: the real query timeout closes it.  4/16 = byte length of the node's own address.
 // class: X undecodable, N nil member, A<addr>:<port> a member at that address (what the bytes after the
@@ -126,24 +127,21 @@ func (x *c36Node) vote(replies [][]byte, timer bool) (string, bool) {
 
 func c36Exec(ops []string) []string {
 	var outs []string
+	var replies [][]byte
 	for _, o := range ops {
 		f := strings.Fields(o)
-		if len(f) < 4 || f[0] != "vote" || (f[1] != "h4" && f[1] != "h16" && f[1] != "t4" && f[1] != "t16") {
-			outs = append(outs, "bad-op")
-			continue
-		}
-		var replies [][]byte
-		bad := false
-		for _, r := range f[4:] {
-			p := strings.SplitN(r, "/", 2)
+		if len(f) == 2 && f[0] == "r" {
+			p := strings.SplitN(f[1], "/", 2)
 			b := unhex(p[0])
 			if len(p) != 2 || b == nil {
-				bad = true
-				break
+				outs = append(outs, "bad-op")
+				continue
 			}
 			replies = append(replies, b)
+			outs = append(outs, "ok")
+			continue
 		}
-		if bad {
+		if len(f) != 4 || f[0] != "vote" || (f[1] != "h4" && f[1] != "h16" && f[1] != "t4" && f[1] != "t16") {
 			outs = append(outs, "bad-op")
 			continue
 		}
@@ -156,6 +154,7 @@ func c36Exec(ops []string) []string {
 				break
 			}
 		}
+		replies = nil
 		outs = append(outs, res)
 	}
 	return outs
@@ -234,7 +233,7 @@ func c36Gen(rng *rand.Rand, tier string) []Case {
 		var rs []string
 		add := func(kind int) {
 			p, c, _, _ := c36Reply(rng, kind)
-			rs = append(rs, hexb(p)+"/"+c)
+			rs = append(rs, "r "+hexb(p)+"/"+c)
 		}
 		for i := 0; i < mine; i++ {
 			add([]int{0, 1, 9}[rng.Intn(3)])
@@ -250,12 +249,9 @@ func c36Gen(rng *rand.Rand, tier string) []Case {
 		if strings.HasSuffix(flavour, "4") {
 			addr = hexb(net.IPv4(127, 0, 0, 1).To4())
 		}
-		op := fmt.Sprintf("vote %s %s 7946", flavour, addr)
-		if len(rs) > 0 {
-			op += " " + strings.Join(rs, " ")
-		}
+		ops := append(rs, fmt.Sprintf("vote %s %s 7946", flavour, addr))
 		d := 2*mine - valid
-		return Case{ID: id, Ops: []string{op}, Nontrivial: malformed > 0 && d >= -1 && d <= 2, Tags: []string{flavour}}
+		return Case{ID: id, Ops: ops, Nontrivial: malformed > 0 && d >= -1 && d <= 2, Tags: []string{flavour}}
 	}
 	for i := 0; i < n; i++ {
 		out = append(out, mk("h"+strconv.Itoa(i), []string{"h4", "h16"}[rng.Intn(2)]))
